@@ -25,6 +25,11 @@ type fenceSpec struct {
 	Lo     int      `json:"lo"`
 	Hi     int      `json:"hi"`
 	Detect []string `json:"detect,omitempty"` // nil = all
+	// Limit > 0 adds "LIMIT n" to the fence definition. A fence is not a
+	// search: its LIMIT (default 100) does not bound how many notifications
+	// it produces over its life (implementation mirrored), so the model
+	// ignores it.
+	Limit int `json:"limit,omitempty"`
 }
 
 type pubOp struct {
@@ -87,6 +92,7 @@ func drawFence(rt *rapid.T, label string) fenceSpec {
 		Lo:     lo,
 		Hi:     hi,
 		Detect: detectPool[rapid.IntRange(0, len(detectPool)-1).Draw(rt, label+"detect")],
+		Limit:  rapid.SampledFrom([]int{0, 0, 0, 0, 0, 1, 2, 3, 5}).Draw(rt, label+"limit"),
 	}
 }
 
@@ -138,12 +144,27 @@ func drawPSCase(rt *rapid.T, maxPubOps, maxLives int) psCase {
 	universe := p.NChan + len(p.Fences)
 	writes := len(p.Fences) > 0 || len(p.Lives) > 0
 	npub := rapid.IntRange(1, 4).Draw(rt, "npub")
+	// a share of the histories is long: one publisher moves the objects more
+	// often than the default fence LIMIT of 100, and every fence notifies on
+	// every write
+	long := writes && rapid.IntRange(0, 24).Draw(rt, "long") == 0
+	if long {
+		for i := range p.Fences {
+			p.Fences[i].Detect = nil
+		}
+		for i := range p.Lives {
+			p.Lives[i].Fence.Detect = nil
+		}
+	}
 	for i := 0; i < npub; i++ {
 		n := rapid.IntRange(1, maxPubOps).Draw(rt, "npubops")
+		if long && i == 0 {
+			n = rapid.IntRange(110, 150).Draw(rt, "nlongops")
+		}
 		ops := make([]pubOp, 0, n)
 		for j := 0; j < n; j++ {
 			var op pubOp
-			if writes && rapid.IntRange(0, 9).Draw(rt, "isset") < 4 {
+			if writes && (rapid.IntRange(0, 9).Draw(rt, "isset") < 4 || (long && i == 0)) {
 				op.Kind = "set"
 				op.Obj = rapid.IntRange(0, 2).Draw(rt, "obj")
 				op.Pos = rapid.IntRange(0, 7).Draw(rt, "pos")
@@ -273,7 +294,11 @@ func detectCode(d string) int {
 }
 
 func fenceArgs(f fenceSpec, key string) []string {
-	a := []string{f.Cmd, key, "FENCE"}
+	a := []string{f.Cmd, key}
+	if f.Limit > 0 {
+		a = append(a, "LIMIT", strconv.Itoa(f.Limit))
+	}
+	a = append(a, "FENCE")
 	if f.Detect != nil {
 		a = append(a, "DETECT", strings.Join(f.Detect, ","))
 	}
@@ -1127,6 +1152,7 @@ func (r *psRun) buildUnits() bool {
 	r.liveExp = make([][]string, len(r.p.Lives))
 	r.liveW = make([][]*emission, len(r.p.Lives))
 	pos := map[int]int{}
+	perFence := map[int]int{}
 	eidx := 0
 	type fev struct {
 		name, detect string
@@ -1158,6 +1184,22 @@ func (r *psRun) buildUnits() bool {
 		}
 		if len(evs) > 2 {
 			o.label("write-with>2-notifications")
+		}
+		for fi, f := range r.p.Fences {
+			if len(fenceEvents(f, old, e.Pos)) > 0 {
+				perFence[fi]++
+				lim := f.Limit
+				if lim == 0 {
+					lim = 100
+				}
+				if perFence[fi] == lim+1 {
+					if f.Limit > 0 {
+						o.label("channel-fence-notified-beyond-its-LIMIT")
+					} else {
+						o.label("channel-fence-with>100-notifying-writes")
+					}
+				}
+			}
 		}
 		for li, l := range r.p.Lives {
 			for _, d := range fenceEvents(l.Fence, old, e.Pos) {
